@@ -2,7 +2,7 @@
 import numpy as np
 import pandas as pd
 
-from .. import common
+from .. import common, checklib
 from ..rtc import par
 
 LEVEL = "exploration"
@@ -142,7 +142,13 @@ def known_class(f, what, sig):
     return None     # no recorded findings: the two defects found here were repaired (see known_findings.jsonl)
 
 
+def PROOFS():
+    from ..contracts import terms_c
+    return [("vf.contracts.terms_c", terms_c.FUNCTIONS)]
+
+
 def run(report, findings):
+    checklib.run_proofs(report, "C17", PROOFS())
     fk = {f["id"] for f in findings if f.get("kind") == "finding"}
     seeds = [common.seed()] if report.tier == "quick" else [common.seed() + i for i in range(6)]
     evals = ok = bad = 0
